@@ -90,7 +90,7 @@ def build_result(ex, kind, shape_name='1d', nds=1, named=True, tag='', with_nan=
         from valjean.cosette.task import TaskStatus
         sts = [TaskStatus.DONE, TaskStatus.FAILED, TaskStatus.SKIPPED]
         chosen = [sts[ex.choice(3, f'{tag}tstatus{i}')] for i in range(2)]
-        trs = [(f'task{i}', {'status': s}) for i, s in enumerate(chosen)]
+        trs = [(['zz-task', 'aa-task'][i], {'status': s}) for i, s in enumerate(chosen)]      # non-alphabetical order
         info.update(expected_verdict=all(s == TaskStatus.DONE for s in chosen), statuses=chosen)
         return TestStatsTasks(name='t-stats', task_results=trs).evaluate(), info
     if kind in ('stats_tests', 'stats_bylabels'):
@@ -109,12 +109,17 @@ def build_result(ex, kind, shape_name='1d', nds=1, named=True, tag='', with_nan=
             def __bool__(self):
                 return self.v
         vs = [bool(ex.bool(f'{tag}verdict{i}')) for i in range(2)]
-        rs = [_R(_T(name=f'inner{i}', labels={'lab': f'v{i % 2}'}), v) for i, v in enumerate(vs)]
+        # names observed in NON-alphabetical order (an in-place sort of the recorded lists would show)
+        rs = [_R(_T(name=['zulu', 'alpha'][i], labels={'lab': f'v{i % 2}'}), v) for i, v in enumerate(vs)]
         trs = [('taskA', {'result': rs})]
         info.update(expected_verdict=all(vs), verdicts=vs)
+        before = snap(rs)
         if kind == 'stats_tests':
-            return TestStatsTests(name='t-stats', task_results=trs).evaluate(), info
-        return TestStatsTestsByLabels(name='t-stats', task_results=trs, by_labels=('lab',)).evaluate(), info
+            res = TestStatsTests(name='t-stats', task_results=trs).evaluate()
+        else:
+            res = TestStatsTestsByLabels(name='t-stats', task_results=trs, by_labels=('lab',)).evaluate()
+        info['evaluation_left_the_observed_results_unchanged'] = snap(rs) == before
+        return res, info
     raise KeyError(kind)
 
 
